@@ -107,6 +107,20 @@ func main() {
 		}
 	}
 
+	// the function that resets every package-level variable of the root package (see globalsReset)
+	{
+		sort.Strings(resetFns)
+		var b strings.Builder
+		b.WriteString("//go:build verif\n\npackage redisemu\n\nfunc vResetAllGlobals() {\n")
+		for _, fn := range resetFns {
+			b.WriteString("\t" + fn + "()\n")
+		}
+		b.WriteString("}\n")
+		dst := filepath.Join(*out, "src", "zz_verif_resetall_gen.go")
+		writeIfChanged(dst, []byte(b.String()))
+		replace[filepath.Join(*repo, "zz_verif_resetall_gen.go")] = dst
+	}
+
 	ov := struct{ Replace map[string]string }{replace}
 	js, _ := json.MarshalIndent(ov, "", " ")
 	writeIfChanged(filepath.Join(*out, "overlay.json"), js)
@@ -160,6 +174,11 @@ func rewrite(path string, data []byte) ([]byte, bool, error) {
 	if rw.err != nil {
 		return nil, false, rw.err
 	}
+	resetFn, resetBody := globalsReset(fset, f, path)
+	if resetBody != "" {
+		rw.changed = true
+		resetFns = append(resetFns, resetFn)
+	}
 	if !rw.changed {
 		return nil, false, nil
 	}
@@ -173,7 +192,81 @@ func rewrite(path string, data []byte) ([]byte, bool, error) {
 	if err := cfg.Fprint(&buf, fset, f); err != nil {
 		return nil, false, err
 	}
+	buf.WriteString(resetBody)
 	return buf.Bytes(), true, nil
+}
+
+// resetFns: the per-file functions that put the package-level variables of the instrumented
+// package back to their initial values (see globalsReset)
+var resetFns []string
+
+// globalsReset returns the source of a function that assigns to every package-level variable of
+// the file its initial value again (the initialiser expression is evaluated anew; a variable
+// without one gets the zero value). Embedded resources (go:embed) and blank variables are left
+// alone. The harness calls all of them between two executions, so that every execution starts
+// from the state of a fresh process - including state a change of the code under test introduces
+// (a lazily built table, a buffer hoisted to package scope), which no hand-written list knows.
+func globalsReset(fset *token.FileSet, f *ast.File, path string) (name, src string) {
+	str := func(n ast.Node) string {
+		var b bytes.Buffer
+		printer.Fprint(&b, token.NewFileSet(), n)
+		return b.String()
+	}
+	embedded := func(cg *ast.CommentGroup) bool {
+		if cg == nil {
+			return false
+		}
+		for _, c := range cg.List {
+			if strings.HasPrefix(c.Text, "//go:embed") {
+				return true
+			}
+		}
+		return false
+	}
+	var body strings.Builder
+	for _, d := range f.Decls {
+		gd, ok := d.(*ast.GenDecl)
+		if !ok || gd.Tok != token.VAR || embedded(gd.Doc) {
+			continue
+		}
+		for _, sp := range gd.Specs {
+			vs := sp.(*ast.ValueSpec)
+			if embedded(vs.Doc) {
+				continue
+			}
+			switch {
+			case len(vs.Values) == len(vs.Names):
+				for i, n := range vs.Names {
+					if n.Name != "_" {
+						fmt.Fprintf(&body, "\t%s = %s\n", n.Name, str(vs.Values[i]))
+					}
+				}
+			case len(vs.Values) == 0:
+				for _, n := range vs.Names {
+					if n.Name != "_" {
+						fmt.Fprintf(&body, "\t{\n\t\tvar zero %s\n\t\t%s = zero\n\t}\n", str(vs.Type), n.Name)
+					}
+				}
+			default: // a, b = f()
+				var names []string
+				for _, n := range vs.Names {
+					names = append(names, n.Name)
+				}
+				fmt.Fprintf(&body, "\t%s = %s\n", strings.Join(names, ", "), str(vs.Values[0]))
+			}
+		}
+	}
+	if body.Len() == 0 {
+		return "", ""
+	}
+	base := strings.TrimSuffix(filepath.Base(path), ".go")
+	name = "vResetGlobals_" + strings.Map(func(r rune) rune {
+		if r >= 'a' && r <= 'z' || r >= 'A' && r <= 'Z' || r >= '0' && r <= '9' {
+			return r
+		}
+		return '_'
+	}, base)
+	return name, "\n//line zz_verif_reset.go:1\nfunc " + name + "() {\n" + body.String() + "}\n"
 }
 
 func addImport(f *ast.File, name, path string) {
